@@ -725,6 +725,36 @@ func c17Diff(p *chk.Prog, r *chk.Report) {
 		okSend = !g.BranchAlways(e, f.ContainsPat("sendWithdraw(RECV.conn, W)", chk.H("W", f.IsObj(wobj)))).Found
 	}
 	y.Check("sendUpdates:withdraw-set", diffOld.Pos(), okW && okSend && wobj != nil, "", "the withdraw list is not exactly the advertised prefixes that are missing from the new set (a dropped route stays in the peer's table), or it is not sent")
+	// the list belongs to one round: what reaches an append is an empty list made in this round of the sender's loop,
+	// or an append of this round - never what an earlier round collected (a prefix withdrawn once would be withdrawn again
+	// in every later round, also after it was requested again)
+	round := f.LoopOf(diffOld)
+	okFresh, badPos := wobj != nil && round != nil, diffOld.Pos()
+	if okFresh {
+		for _, s := range g.Find(wapp) {
+			call := s.Node.(*ast.AssignStmt).Rhs[0].(*ast.CallExpr)
+			wid, isId := ast.Unparen(call.Args[0]).(*ast.Ident)
+			if !isId {
+				okFresh = false
+				continue
+			}
+			vals, okv := g.ReachingValues(wid, s)
+			if !okv {
+				okFresh, badPos = false, s.Pos()
+				continue
+			}
+			for _, v := range vals {
+				if wapp(v.Def.Node) && chk.InBody(diffOld, v.Def.Node) {
+					continue
+				}
+				if chk.InBody(round, v.Def.Node) && emptyListValue(f, v, wobj) {
+					continue
+				}
+				okFresh, badPos = false, v.Def.Pos()
+			}
+		}
+	}
+	y.Check("sendUpdates:withdraw-list-fresh-each-round", badPos, okFresh, "", "the withdraw list of a round can still hold what an earlier round collected (the list is made or emptied outside the sender's loop): a prefix withdrawn once is withdrawn again in every later round, also after it was requested again")
 	// commit
 	commits := g.Find(func(n ast.Node) bool {
 		as, okk := n.(*ast.AssignStmt)
@@ -1095,4 +1125,43 @@ func setReadonlyRule(p *chk.Prog, r *chk.Report) {
 		}
 		x.Check(pkg+":Set:advertisements-not-written", pos, !bad.IsValid(), "", "Set stores through an advertisement it was handed: the same object is held by the sessions of the other peers (and by the controller), which now send / compare the changed value")
 	}
+}
+
+// emptyListValue: the definition gives the list variable an empty value - a declaration without a value, nil, an empty
+// literal, make with length 0, or the variable itself cut to length 0.
+func emptyListValue(f *chk.Fn, v chk.ReachingValue, obj types.Object) bool {
+	if v.Rhs == nil {
+		// `var w []T`
+		if ds, ok := v.Def.Node.(*ast.DeclStmt); ok {
+			if gd, ok := ds.Decl.(*ast.GenDecl); ok {
+				for _, sp := range gd.Specs {
+					if vs, ok := sp.(*ast.ValueSpec); ok && len(vs.Values) == 0 {
+						for _, nm := range vs.Names {
+							if f.Info().Defs[nm] == obj {
+								return true
+							}
+						}
+					}
+				}
+			}
+		}
+		return false
+	}
+	switch e := ast.Unparen(v.Rhs).(type) {
+	case *ast.Ident:
+		return f.IsNilLit(e)
+	case *ast.CompositeLit:
+		return len(e.Elts) == 0
+	case *ast.CallExpr:
+		if id, ok := e.Fun.(*ast.Ident); ok && id.Name == "make" && len(e.Args) >= 2 {
+			c := f.ConstVal(e.Args[1])
+			return c != nil && c.String() == "0"
+		}
+	case *ast.SliceExpr:
+		if id, ok := ast.Unparen(e.X).(*ast.Ident); ok && f.ObjOf(id) == obj && e.Low == nil && e.High != nil {
+			c := f.ConstVal(e.High)
+			return c != nil && c.String() == "0"
+		}
+	}
+	return false
 }
